@@ -398,9 +398,9 @@ def run(ck):
     lap("go_build")
     traces = dbprops.load_corpus("C05")
     quick = ck.tier == "quick"
-    for _ in range(90 if quick else 1500):
+    for _ in range(90 if quick else 3000):
         traces.append(dbgen.gen_view_trace(ck.rng, length=ck.rng.randint(10, 40), strays=False))
-    for _ in range(60 if quick else 1200):
+    for _ in range(60 if quick else 2400):
         traces.append(gen_timeline(ck.rng, length=ck.rng.randint(6, 14)))
     if not ok:
         return
